@@ -2,7 +2,7 @@
    Theorems only.  Model: Model/Cache.v (the MultiTypeMap dict, errors, all as a state machine over getitem). *)
 From Coq Require Import ZArith List Bool Arith.
 Import ListNotations.
-From OvldV Require Import Model.Order Model.Ty Model.Codec Model.Resolve Model.Cache Proofs.CacheFacts Proofs.CacheFull.
+From OvldV Require Import Model.Order Model.Ty Model.Codec Model.Resolve Model.Cache Proofs.CacheFacts Proofs.CacheFull Gen.Leaf Proofs.LeafMissing.
 
 (* FULL STATEMENT, PROVED: for every list of handlers with distinct code objects and every finite history of
    dictionary accesses -- plain keys and continuation keys (caller code, *types), in any order, with repeats, failing
@@ -20,6 +20,24 @@ Theorem C04_access_step : forall sub hasm chk fresh ms, NoDup (map m_id ms) -> f
   FInv sub hasm chk fresh ms st' /\ out = Cache.fresh sub hasm chk fresh ms q.
 Proof. exact getitem_full. Qed.
 Print Assumptions C04_access_step.
+
+(* second tie to the source: the decision chain of MultiTypeMap.__missing__ for a key with a leading code object, as
+   regenerated from /repo's current text (Gen/Leaf.v), is the chain the state machine's getitem follows *)
+Theorem C04_leaf_missing : forall foreign remembered stored,
+  missing_code_src foreign remembered stored = code_action_of foreign remembered stored.
+Proof. exact code_action_agree. Qed.
+Print Assumptions C04_leaf_missing.
+
+Theorem C04_getitem_follows_chain : forall sub hasm chk fresh st c k st1 h r cands,
+  assoc_q (mkQ (Some c) k) (cs_dict st) = None ->
+  get_plain sub hasm chk fresh st k = (st1, ORun h, r) ->
+  assoc_k k (cs_all st1) = Some cands ->
+  getitem sub hasm chk fresh st (mkQ (Some c) k) =
+    (st1, run_action st1 (mkQ (Some c) k) h
+            (code_action_of (negb (memb c cands)) (is_some (assoc_q (mkQ (Some c) k) (cs_err st1)))
+                            (is_some (assoc_q (mkQ (Some c) k) (cs_dict st1)))), r).
+Proof. exact getitem_follows_action. Qed.
+Print Assumptions C04_getitem_follows_chain.
 
 (* the earlier statement for plain accesses only, without the distinctness hypothesis *)
 Theorem C04_history_free_partial : forall sub hasm chk fresh ms ops,
